@@ -18,6 +18,8 @@ type Decision struct {
 	Kind   string // "br", "sched", "nondet", "assume", "assert"
 	Given  bool   // siblings handed to another worker
 	Note   string
+	Keep   []int  // state-cache filter applied at this scheduling point (indices kept); nil: none
+	Filt   bool   // Keep is meaningful
 }
 
 // frozen copies a trace for another worker: the receiver must never backtrack
@@ -35,11 +37,15 @@ func (in *Interp) replaying() bool { return len(in.trace) < len(in.prefix) }
 
 // choose makes an n-way concrete choice.
 func (in *Interp) choose(n int, kind, note string) int {
+	return in.chooseK(n, kind, note, nil, false)
+}
+
+func (in *Interp) chooseK(n int, kind, note string, keep []int, filt bool) int {
 	if n <= 0 {
 		panic("choose(0)")
 	}
 	idx := len(in.trace)
-	d := Decision{N: n, Kind: kind, Note: note}
+	d := Decision{N: n, Kind: kind, Note: note, Keep: keep, Filt: filt}
 	if idx < len(in.prefix) {
 		p := in.prefix[idx]
 		if p.Kind != kind || (p.N != n && !p.Given) {
@@ -53,7 +59,7 @@ func (in *Interp) choose(n int, kind, note string) int {
 	} else if n > 1 && in.share != nil && in.share(idx) {
 		// hand siblings to other workers
 		for alt := 1; alt < n; alt++ {
-			in.give(frozen(in.trace, Decision{N: 1, Choice: alt, Kind: kind, Given: true}))
+			in.give(frozen(in.trace, Decision{N: 1, Choice: alt, Kind: kind, Given: true, Keep: keep, Filt: filt}))
 		}
 		d.N = 1
 		d.Given = true
@@ -586,9 +592,67 @@ func (in *Interp) runPath(entry *ssa.Function) (out PathOutcome) {
 			}
 			ts = cands
 		}
+		caching := !in.cfg.NoCache && in.sh != nil
+		var keepIdx []int
+		filt := false
+		if caching && in.replaying() {
+			p := in.prefix[len(in.trace)]
+			if p.Kind != "sched" {
+				panic(fmt.Sprintf("replay divergence at decision %d: scheduling point vs %s", len(in.trace), p.Kind))
+			}
+			keepIdx, filt = p.Keep, p.Filt
+		} else if caching {
+			h, chanIx := in.stateHash()
+			var sigs []uint64
+			for _, z := range sleep {
+				sigs = append(sigs, in.transSig(z, chanIx))
+			}
+			prune, old, seen := in.sh.visit(h, sigs)
+			if prune {
+				in.stats.Pruned++
+				in.stats.CacheHits++
+				return PathOutcome{Kind: "end", Msg: "state already explored"}
+			}
+			if seen {
+				// explore only what the earlier visit left asleep and we must not skip
+				oldSet := map[uint64]bool{}
+				for _, x := range old {
+					oldSet[x] = true
+				}
+				curSet := map[uint64]bool{}
+				for _, x := range sigs {
+					curSet[x] = true
+				}
+				filt = true
+				for i, x := range ts {
+					sg := in.transSig(x, chanIx)
+					if oldSet[sg] && !curSet[sg] {
+						keepIdx = append(keepIdx, i)
+					}
+				}
+				if len(keepIdx) == 0 {
+					in.stats.Pruned++
+					in.stats.CacheHits++
+					return PathOutcome{Kind: "end", Msg: "state already explored"}
+				}
+			}
+		}
+		if filt {
+			var keep []Trans
+			k := 0
+			for i, x := range ts {
+				if k < len(keepIdx) && keepIdx[k] == i {
+					keep = append(keep, x)
+					k++
+				} else {
+					sleep = append(sleep, x)
+				}
+			}
+			ts = keep
+		}
 		pick := 0
-		if len(ts) > 1 {
-			pick = in.choose(len(ts), "sched", "")
+		if caching || len(ts) > 1 {
+			pick = in.chooseK(len(ts), "sched", "", keepIdx, filt)
 		}
 		t := ts[pick]
 		if !in.cfg.NoSleep {
